@@ -262,3 +262,12 @@ def run(ctx, fb, cfg):
     streams.check_conj_new(ctx, lib, R + "K6.conj-new", "crate::operator::conj::Conj::new", "Goal", "Conj")
     streams.check_conj_new(ctx, lib, R + "K6.conj-new", "crate::operator::conj::InferredConj::new", "G", "InferredConj")
     streams.census(ctx, lib, R + "K1.construction-sites", ALLOWED_SITES, FLOORS)
+    # "depth-first and interleaving search return the same multiset": the depth-first merge and
+    # bind must distribute over every answer of the first stream too (tables shared with C05)
+    streams.check_mplus(ctx, lib, DFS, R + "K3.merge-dfs")
+    streams.check_bind(ctx, lib, DFS, R + "K3.bind-dfs")
+    streams.check_conj_new(ctx, lib, R + "K6.conj-new", "crate::operator::conj::DFSConj::new", "DFSGoal", "DFSConj")
+    streams.check_disj_new(ctx, lib, R + "K6.disj-new", "crate::operator::disj::Disj::new", "disj::Disj")
+    streams.check_disj_new(ctx, lib, R + "K6.disj-new", "crate::operator::disj::DFSDisj::new", "DFSDisj")
+    streams.check_disj_solve(ctx, lib, DFS, R + "K3.disj-dfs", "<crate::operator::disj::DFSDisj as crate::solver::Solve>::solve")
+    streams.check_conde_fold(ctx, lib, R + "K6.conde-fold", DFS)
